@@ -645,35 +645,70 @@ pub fn examples(th: bool) -> Vec<Example> {
 
 pub enum Verdict { Ok, Bad(String, String) }
 
-static WATCH: std::sync::Mutex<BTreeMap<u32, (Instant, bool)>> = std::sync::Mutex::new(BTreeMap::new());
+/// what the watchdog knows about a running example binary
+struct Watched { start: Instant, confirm: bool, killed: Option<String>, last_cpu: u64, last_change: Instant }
+static WATCH: std::sync::Mutex<BTreeMap<u32, Watched>> = std::sync::Mutex::new(BTreeMap::new());
 extern "C" { fn kill(pid: i32, sig: i32) -> i32; }
+/// CPU time (user + system, all threads, in clock ticks of 10 ms) consumed so far by a process
+fn cpu_ticks(pid: u32) -> Option<u64> {
+    let txt = std::fs::read_to_string(format!("/proc/{}/stat", pid)).ok()?;
+    let rest = &txt[txt.rfind(')')? + 1..];
+    let f: Vec<&str> = rest.split_whitespace().collect();
+    Some(f.get(11)?.parse::<u64>().ok()? + f.get(12)?.parse::<u64>().ok()?)
+}
+const FIRST_WALL_S: u64 = 20;
+const CONFIRM_IDLE_S: u64 = 30;
+const CONFIRM_CPU_S: u64 = 150;
+const CONFIRM_WALL_S: u64 = 1200;
+/// First attempt of a run: killed after 20 s of wall clock.  That alone proves nothing on a loaded machine (a legitimate run
+/// of `golomb 9 -w 1` needs 10 s of CPU time; with four runnable processes per core it did not finish within 90 s of wall
+/// clock: false alarm F8), so the confirmation run is judged on what the process DOES, not on how long the machine takes:
+/// it is a hang when it consumes no CPU time during 30 s (dead-lock, lost wake-up: every thread is parked), and a
+/// non-termination when it has consumed 150 s of CPU time (15 times the longest legitimate run of the scopes) without a result.
 fn start_watchdog() {
     std::thread::spawn(|| loop {
         std::thread::sleep(Duration::from_millis(500));
         let mut w = WATCH.lock().unwrap();
-        for (pid, (deadline, killed)) in w.iter_mut() { if !*killed && Instant::now() > *deadline { *killed = true; unsafe { kill(*pid as i32, 9); } } }
+        let now = Instant::now();
+        for (pid, e) in w.iter_mut() {
+            if e.killed.is_some() { continue; }
+            let verdict = if !e.confirm {
+                if now.duration_since(e.start).as_secs() >= FIRST_WALL_S { Some(format!("no result within {} s", FIRST_WALL_S)) } else { None }
+            } else {
+                let cpu = cpu_ticks(*pid).unwrap_or(e.last_cpu);
+                if cpu > e.last_cpu + 1 { e.last_cpu = cpu; e.last_change = now; }
+                if now.duration_since(e.last_change).as_secs() >= CONFIRM_IDLE_S { Some(format!("no result and no CPU time consumed during {} s (every thread is blocked); confirmation run, {} s of CPU time used in all", CONFIRM_IDLE_S, cpu / 100)) }
+                else if cpu >= CONFIRM_CPU_S * 100 { Some(format!("no result after {} s of CPU time (confirmation run)", CONFIRM_CPU_S)) }
+                else if now.duration_since(e.start).as_secs() >= CONFIRM_WALL_S { Some("MACHINE-TOO-SLOW".to_string()) }
+                else { None }
+            };
+            if let Some(v) = verdict { e.killed = Some(v); unsafe { kill(*pid as i32, 9); } }
+        }
     });
 }
 
-/// runs the binary on a case file with an argument set; a watchdog time-out alone is not believed (loaded machine):
-/// the run is repeated once with a 90 s watchdog and only a second time-out is a hang
+/// runs the binary on a case file with an argument set; a time-out of the first attempt is not believed (loaded machine):
+/// the run is repeated once under the CPU-time based watchdog and only a second failure is a hang
 fn run_case(bin: &str, ex: &Example, file: &str, case: &Case, args: &[String]) -> Verdict {
-    match run_case_once(bin, ex, file, case, args, 20) {
-        Verdict::Bad(sig, _) if sig.ends_with(":hang") => run_case_once(bin, ex, file, case, args, 90),
+    match run_case_once(bin, ex, file, case, args, false) {
+        Verdict::Bad(sig, _) if sig.ends_with(":hang") => run_case_once(bin, ex, file, case, args, true),
         v => v,
     }
 }
-fn run_case_once(bin: &str, ex: &Example, file: &str, case: &Case, args: &[String], watchdog_s: u64) -> Verdict {
+fn run_case_once(bin: &str, ex: &Example, file: &str, case: &Case, args: &[String], confirm: bool) -> Verdict {
     let mut cmd = Command::new(bin);
     match ex.file_flag { Some("GOLOMB") => { cmd.arg(case.text.trim()); } Some(f) => { cmd.arg(f).arg(file); } None => { cmd.arg(file); } }
     cmd.args(args).stdout(Stdio::piped()).stderr(Stdio::piped()).stdin(Stdio::null()).env("RUST_BACKTRACE", "0");
     let child = match cmd.spawn() { Ok(c) => c, Err(e) => return Verdict::Bad("machinery".to_string(), format!("cannot spawn {}: {}", bin, e)) };
     // blocking wait; a watchdog thread kills the children which are older than 20 s
     let pid = child.id();
-    WATCH.lock().unwrap().insert(pid, (Instant::now() + Duration::from_secs(watchdog_s), false));
+    WATCH.lock().unwrap().insert(pid, Watched { start: Instant::now(), confirm, killed: None, last_cpu: 0, last_change: Instant::now() });
     let out = child.wait_with_output();
-    let killed = WATCH.lock().unwrap().remove(&pid).map_or(false, |e| e.1);
-    if killed { return Verdict::Bad(format!("example:{}:hang", ex.name), format!("no result within the {} s watchdog", watchdog_s)); }
+    let killed = WATCH.lock().unwrap().remove(&pid).and_then(|e| e.killed);
+    if let Some(why) = killed {
+        if why == "MACHINE-TOO-SLOW" { return Verdict::Bad("machinery".to_string(), format!("{} {:?}: the confirmation run got less than {} s of CPU time in {} s of wall clock: the machine is too loaded to decide", ex.name, args, CONFIRM_CPU_S, CONFIRM_WALL_S)); }
+        return Verdict::Bad(format!("example:{}:hang", ex.name), why);
+    }
     let out = match out { Ok(o) => o, Err(e) => return Verdict::Bad("machinery".to_string(), format!("wait failed: {}", e)) };
     let stdout = String::from_utf8_lossy(&out.stdout).to_string();
     if !out.status.success() {
@@ -734,15 +769,11 @@ pub fn check(tier: &str) -> i32 {
     start_watchdog();
     let total_budget = if th { 2400.0 } else { 56.0 };
     let t0 = Instant::now();
-    let mut per_example = vec![];
-    let (mut runs, mut cases, mut complete) = (0u64, 0u64, true);
-    let mut samples = vec![];
-    let n_ex = exs.iter().filter(|e| only.as_ref().map_or(true, |o| o == e.name.split('@').next().unwrap())).count().max(1);
-    for (ei, ex) in exs.iter().filter(|e| only.as_ref().map_or(true, |o| o == e.name.split('@').next().unwrap())).enumerate() {
-        // every example gets an equal share of what is left of the budget
-        let left = total_budget - t0.elapsed().as_secs_f64();
-        let share = (left / (n_ex - ei) as f64).max(1.0);
-        let deadline = Instant::now() + Duration::from_secs_f64(share);
+    let selected: Vec<&Example> = exs.iter().filter(|e| only.as_ref().map_or(true, |o| o == e.name.split('@').next().unwrap())).collect();
+    // blocks of a few long single-threaded runs (golomb with 9 marks at width 1, the long lcs pairs) run beside the others, in
+    // a thread of their own: they occupy one core each and used to eat a third of the tier's budget while 15 cores were idle
+    let (few, main): (Vec<&Example>, Vec<&Example>) = selected.iter().partition(|e| (e.count + e.extra.len() as u64) * e.arg_sets.len() as u64 <= 48);
+    let run_example = |ex: &Example, deadline: Instant| -> (Value, u64, u64, bool, Vec<Value>) {
         let bin = format!("{}/{}", bindir, ex.name.split('@').next().unwrap());
         let te = Instant::now();
         let res = par_run::<Local, _>(ex.count + ex.extra.len() as u64, 8, Some(deadline), rep.seed, |i, l| {
@@ -769,16 +800,32 @@ pub fn check(tier: &str) -> i32 {
         });
         let mut l = Local::default();
         for x in res.locals { l.runs += x.runs; l.cases += x.cases; l.infeasible += x.infeasible; l.distinct_objectives.extend(x.distinct_objectives); if l.samples.is_empty() { l.samples.extend(x.samples); } }
-        runs += l.runs; cases += l.cases;
-        if res.done < ex.count + ex.extra.len() as u64 { complete = false; }
-        if samples.len() < 12 { samples.extend(l.samples.into_iter().take(1)); }
-        per_example.push(json!({"example": ex.name, "scope": ex.scope, "instances_in_scope": ex.count, "extra_hand_written_instances": ex.extra.len(), "instances_done": res.done, "complete": res.done == ex.count + ex.extra.len() as u64, "runs": l.runs, "argument_sets": ex.arg_sets.len(),
-            "infeasible_instances": l.infeasible, "distinct_optimal_values": l.distinct_objectives.len(), "wall_s": te.elapsed().as_secs_f64()}));
-    }
+        let complete = res.done == ex.count + ex.extra.len() as u64;
+        (json!({"example": ex.name, "scope": ex.scope, "instances_in_scope": ex.count, "extra_hand_written_instances": ex.extra.len(), "instances_done": res.done, "complete": complete, "runs": l.runs, "argument_sets": ex.arg_sets.len(),
+            "infeasible_instances": l.infeasible, "distinct_optimal_values": l.distinct_objectives.len(), "wall_s": te.elapsed().as_secs_f64()}), l.runs, l.cases, complete, l.samples)
+    };
+    let mut results: Vec<(Value, u64, u64, bool, Vec<Value>)> = vec![];
+    std::thread::scope(|s| {
+        let run_example = &run_example;
+        let few = &few;
+        let hs: Vec<_> = few.iter().map(|ex| s.spawn(move || run_example(ex, t0 + Duration::from_secs_f64(total_budget)))).collect();
+        let n_ex = main.len().max(1);
+        for (ei, ex) in main.iter().enumerate() {
+            // every example gets an equal share of what is left of the budget
+            let left = total_budget - t0.elapsed().as_secs_f64();
+            let share = (left / (n_ex - ei) as f64).max(1.0);
+            results.push(run_example(ex, Instant::now() + Duration::from_secs_f64(share)));
+        }
+        for h in hs { results.push(h.join().expect("thread of the long single runs panicked")); }
+    });
+    let mut per_example = vec![];
+    let (mut runs, mut cases, mut complete) = (0u64, 0u64, true);
+    let mut samples = vec![];
+    for (v, r, c, ok, smp) in results { per_example.push(v); runs += r; cases += c; if !ok { complete = false; } if samples.len() < 12 { samples.extend(smp.into_iter().take(1)); } }
     let _ = std::fs::remove_dir_all(&scratch);
     let cov = json!({
         "evaluations": runs, "distinct_nontrivial": cases,
-        "rule": "per example: every instance file of the stated tiny scope (bounded exhaustive, decoded from an index) x every listed argument set (widths / threads) is run through the real example binary built from /repo (dev profile, overflow checks on); oracle = brute force over the combinatorial object written from the problem statement; a run is a violation when the binary exits non-zero, exceeds the watchdog (20 s, confirmed by a second run with 90 s), prints Aborted: true, or prints an objective different from the oracle; distinct_nontrivial = distinct instance files run (each instance is enumerated once)",
+        "rule": "per example: every instance file of the stated tiny scope (bounded exhaustive, decoded from an index) x every listed argument set (widths / threads) is run through the real example binary built from /repo (dev profile, overflow checks on); oracle = brute force over the combinatorial object written from the problem statement; a run is a violation when the binary exits non-zero, gives no result within 20 s and, run again, consumes no CPU time during 30 s (hang) or 150 s of CPU time without a result (non-termination), prints Aborted: true, or prints an objective different from the oracle; distinct_nontrivial = distinct instance files run (each instance is enumerated once)",
         "samples": samples, "exhaustive": complete, "examples": per_example,
         "caps_hit": if complete { json!([]) } else { json!(["wall clock share of the tier: see examples[*].instances_done (the order of blocks rotates with VERIF_SEED)"]) },
     });
